@@ -72,7 +72,9 @@ REQUIRED_BUCKETS = ["poly", "poly3d", "poly/s=0", "poly/s=length", "poly/s=verte
                     "net/range-type-inf", "net/range-type-default", "net/range-type-keyword",
                     # results must not alias state: returned arrays / lists modified in place, then re-observed
                     "alias/interp-result-modified", "alias/interp-at-vertex", "alias/merge-result-modified",
-                    "alias/routes-result-modified", "alias/mergechain-result-modified"]
+                    "alias/routes-result-modified", "alias/mergechain-result-modified",
+                    # integer-dtype vertex arrays with segments of non-integer length
+                    "poly/int-dtype-diagonal", "merge/int-dtype-diagonal", "net/int-dtype-diagonal"]
 REQUIRED_BUCKETS += ["net/via-" + v for v in ("add_lanelet", "add_lanelet_rtree", "from_list", "from_list_cleanup", "from_network",
                                               "add_from_network", "scenario_network", "scenario_lanelets")]
 REQUIRED_BUCKETS += ["net/pre-" + q for q in ("lanelets", "lanelet_polygons", "find_by_position", "distances", "polygons", "deepcopy",
@@ -417,9 +419,34 @@ def gen_poly(ctx, repeated=False):
             "pre": r.sample(["distance", "inner_distance", "polygon", "deepcopy", "pickle", "interp0"], r.randint(0, 3))}
 
 
+def gen_center_int(r, n):
+    """Integer coordinates, at least one segment of NON-integer (irrational) length: diagonal steps that are no Pythagorean triple."""
+    while True:
+        x, y = r.randint(-50, 50), r.randint(-50, 50)
+        pts = [(x, y)]
+        for _ in range(n - 1):
+            dx, dy = r.choice([(1, 1), (2, 1), (1, -1), (3, 2), (-1, 2), (2, 5), (r.randint(-6, 6), r.randint(-6, 6)), (3, 4), (1, 0)])
+            if (dx, dy) == (0, 0):
+                dx = 1
+            x, y = x + dx, y + dy
+            pts.append((x, y))
+        if any(math.isqrt((a[0] - b[0]) ** 2 + (a[1] - b[1]) ** 2) ** 2 != (a[0] - b[0]) ** 2 + (a[1] - b[1]) ** 2 for a, b in zip(pts, pts[1:])) \
+                and all(a != b for a, b in zip(pts, pts[1:])):
+            return [(Fraction(a), Fraction(b)) for a, b in pts]
+
+
 def gen_polyfloat(ctx):
     r = ctx.rng
     n = r.choice([2, 3, 4, 6])
+    if r.random() < 0.4:
+        # integer-dtype vertex arrays whose segments have non-integer lengths (value class: int where float is usual)
+        c = gen_center_int(r, n)
+        w = r.randint(1, 4)
+        right = [(x + r.randint(-2, 2), y - w) for x, y in c]
+        left = [(x + r.randint(-2, 2), y + w) for x, y in c]
+        return {"kind": "polyfloat", "center": [[rat(x), rat(y)] for x, y in c], "right": [[rat(x), rat(y)] for x, y in right],
+                "left": [[rat(x), rat(y)] for x, y in left], "fracs": [rat(r.random()) for _ in range(4)],
+                "decor": {"int_arrays": True}}
     scale = r.choice([1.0, 1.0, 10.0, 1e3, 1e5, 1e-2])
     c = [(r.uniform(-scale, scale), r.uniform(-scale, scale))]
     for _ in range(n - 1):
@@ -435,16 +462,24 @@ def gen_polyfloat(ctx):
 def gen_merge(ctx):
     r = ctx.rng
     na, nb = r.choice([2, 2, 3, 4]), r.choice([2, 2, 3, 5])
-    ca = gen_center(r, na)
-    la, ra = gen_boundary(r, ca, +1), gen_boundary(r, ca, -1)
+    intdiag = r.random() < 0.2      # integer-dtype vertex arrays with diagonal (irrational-length) segments
+    if intdiag:
+        ca, cb0 = gen_center_int(r, na), gen_center_int(r, nb)
+        w = r.randint(1, 4)
+        gen_b = lambda rr, c, sign: [(x, y + sign * w) for x, y in c]  # noqa: E731
+    else:
+        ca, cb0 = gen_center(r, na), gen_center(r, nb)
+        gen_b = gen_boundary
+    la, ra = gen_b(r, ca, +1), gen_b(r, ca, -1)
     joint = r.choice(["exact", "exact", "exact", "tol", "left-only", "open", "open-left"])
-    cb0 = gen_center(r, nb)
+    if intdiag:
+        joint = r.choice(["exact", "exact", "exact", "left-only", "open"])
 
     def shift(poly, to):
         dx, dy = to[0] - poly[0][0], to[1] - poly[0][1]
         return [(x + dx, y + dy) for x, y in poly]
 
-    lb0, rb0 = gen_boundary(r, cb0, +1), gen_boundary(r, cb0, -1)
+    lb0, rb0 = gen_b(r, cb0, +1), gen_b(r, cb0, -1)
     eps = Fraction(1, 2 ** 40)
     if joint == "exact":
         cb, lb, rb = shift(cb0, ca[-1]), shift(lb0, la[-1]), shift(rb0, ra[-1])
@@ -480,6 +515,8 @@ def gen_merge(ctx):
 
     a, b = lan(ida, a_pred, a_succ, la, ca, ra), lan(idb, b_pred, b_succ, lb, cb, rb)
     a["decor"], b["decor"] = gen_decor(r), gen_decor(r)
+    if intdiag:
+        a["decor"]["int_arrays"] = b["decor"]["int_arrays"] = True
     swapped = r.random() < 0.4
     return {"kind": "merge", "l1": b if swapped else a, "l2": a if swapped else b, "joint": joint, "link": link,
             "retry_link": link == "none" and r.random() < 0.7}
@@ -635,6 +672,9 @@ def gen_net(ctx):
 def widen_net_case(r, c, ids):
     """Dimensions beyond the graph itself: entry point that assembles the network, optional lanelet attributes, read-only queries
     before the observation, scalar type / default / keyword form of max_length, link edits after the first round of queries."""
+    for nd in c["nodes"]:
+        if r.random() < 0.12:
+            nd["diag"] = r.randint(1, 6)
     c["via"] = r.choice(NET_VIAS)
     if c.get("dangling") and c["via"] == "from_list_cleanup" and r.random() < 0.5:
         c["via"] = "from_list"
@@ -963,12 +1003,18 @@ def oracle_poly(ctx, case, lan, d, sfl, impl, extra_tol=None):
 def run_polyfloat(ctx, case):
     ctx.tag("polyfloat")
     ctx.case(case)
-    res = call(make_lanelet, case["left"], case["center"], case["right"])
+    res = call(make_lanelet, case["left"], case["center"], case["right"], 1, None, None, case.get("decor"))
     if res[0] == "err":
         ctx.fail(f"C20/Lanelet/raises-{res[1]}", f"Lanelet constructor raises for a valid polyline: {res[2]}", case)
         return
     lan = res[1]
     d = [float(v) for v in lan.distance]
+    if lan.center_vertices.dtype.kind in "iu":
+        ctx.tag("poly/int-dtype-diagonal")
+        # correspondence of the cumulative distance with the model on the float lengths of the same vertices (within 1e-9)
+        mc = ctx.driver.ask("C20", "cum", {"lens": [rat(v) for v in np_seglens(pts_to_np(case["center"]))]})
+        dc = [rat(v) for v in d]
+        ctx.compare(case, mc if len(dc) == len(mc) and close_pt(dc, mc) else dc, mc, "Lanelet.distance (integer dtype vertices) vs CR.Arc.cumDist")
     sfl = [0.0, d[-1]] + d[1:-1]
     for i, f in enumerate(case["fracs"]):
         sfl.append(float(F(f)) * d[-1])
@@ -1057,7 +1103,7 @@ def run_merge(ctx, case, objs=None):
         exact_joint = p["center"][-1] == s["center"][0]
         mm = ctx.driver.ask("C20", "cum", {"lens": [rat(v) for v in np_seglens(pts_to_np(model["ok"]["center"]))]})
         md = [rat(float(v)) for v in m.distance]
-        if not exact_joint and len(md) == len(mm) and close_pt(md, mm):
+        if (not exact_joint or not seglens_exact([(F(x), F(y)) for x, y in model["ok"]["center"]])[1]) and len(md) == len(mm) and close_pt(md, mm):
             md = mm   # the bridging segment of an open joint has no exact length: float cumsum vs rational sum within 1e-9 relative
         ctx.compare(case, md, mm, "merged.distance vs cumDist of the merged centre line")
         ctx.tag("merge/joined" if joined else "merge/open")
@@ -1092,10 +1138,14 @@ def run_merge(ctx, case, objs=None):
                      f"{k} boundary of the merged lanelet has {len(arr)} vertices, concatenation with the joint kept once has {len(want)}"
                      if len(arr) != len(want) else f"{k} boundary of the merged lanelet differs from the concatenation", sub)
             return
-    la, lb = lanelet_of(first).distance[-1], lanelet_of(second).distance[-1]
+    # lengths of the parts: the Euclidean lengths of their centre lines, computed here from the case's coordinates
+    la = sum(seglens_exact([(F(x), F(y)) for x, y in first["center"]])[0], Fraction(0))
+    lb = sum(seglens_exact([(F(x), F(y)) for x, y in second["center"]])[0], Fraction(0))
     lm = m.distance[-1]
-    if abs(Fraction(float(lm)) - (Fraction(float(la)) + Fraction(float(lb)))) > Fraction(TOL) * (1 + Fraction(float(lm))):
-        ctx.fail("C20/merge_lanelets/length-not-sum", f"merged length {lm}, parts {la} + {lb}", sub)
+    if a.center_vertices.dtype.kind in "iu" and b.center_vertices.dtype.kind in "iu" and (la + lb).denominator != 1:
+        ctx.tag("merge/int-dtype-diagonal")
+    if abs(Fraction(float(lm)) - (la + lb)) > Fraction(TOL) * (1 + la + lb):
+        ctx.fail("C20/merge_lanelets/length-not-sum", f"merged length {lm}, centre-line lengths of the parts {float(la)} + {float(lb)}", sub)
 
 
 # ------------------------------------------------------------------------------------------------ routes
@@ -1128,6 +1178,13 @@ def build_net(nodes, via="add_lanelet"):
     for k, nd in enumerate(nodes):
         le = F(nd["len"])
         y = 4 * k
+        if nd.get("diag"):
+            # integer-dtype vertices, diagonal centre line of length diag * sqrt(2)
+            g = int(nd["diag"])
+            c = [(Fraction(0), Fraction(y)), (Fraction(g), Fraction(y + g))]
+            lans.append(make_lanelet([(x, yy + 1) for x, yy in c], c, [(x, yy - 1) for x, yy in c], nd["id"], nd["pred"], nd["succ"],
+                                     dict(nd.get("decor") or {}, int_arrays=True)))
+            continue
         # two segments when the length allows it, so that distance[-1] is a real cumulative sum
         if le.denominator <= 4 and le >= Fraction(1, 2) and k % 2:
             h = le / 2
@@ -1313,6 +1370,19 @@ def observe_routes(ctx, case, net, counter, queries, rnd):
     """One round of route queries on the network as it is now: correspondence (model on the graph read back from the real
     objects) and oracle (graph-path checker on the same graph)."""
     nodes = read_graph(net)
+    # the lengths the route functions add up are distance[-1] of the lanelets: each must be its centre line's Euclidean length
+    for la in net.lanelets:
+        cv = [[float(v) for v in p] for p in la.center_vertices]
+        want = math.fsum(math.hypot(*(b_ - a_ for a_, b_ in zip(p, q))) for p, q in zip(cv, cv[1:]))
+        got = float(la.distance[-1])
+        if la.center_vertices.dtype.kind in "iu" and not float(want).is_integer():
+            ctx.tag("net/int-dtype-diagonal")
+        if abs(got - want) > TOL * (1 + want):
+            ctx.fail("C20/distance/last-is-not-centre-length/network-lanelet",
+                     f"lanelet {la.lanelet_id} ({la.center_vertices.dtype} vertices {cv}): distance[-1] = {got}, centre line length = {want}",
+                     {"kind": "net", "nodes": [dict(nd, succ=[], pred=[]) for nd in case["nodes"] if nd["id"] == la.lanelet_id] or case["nodes"][:1],
+                      "queries": [{"start": int(la.lanelet_id), "max": "50/1"}]})
+            break
     ids = [nd["id"] for nd in nodes]
     succ = {nd["id"]: list(nd["succ"]) for nd in nodes}
     pred = {nd["id"]: list(nd["pred"]) for nd in nodes}
